@@ -58,6 +58,10 @@ def check(run, replay=None):
         if replay:
             return do_replay(run, binp, replay, d, domf)
         run.add_mc("AlgebraMC", r, c)
+        run.notes["level_note"] = ("close to one pure function per instance: TLC contributes the exhaustive enumeration of the domain, "
+                                   "the laws checked on the model and the line-by-line judgement of inner call logs")
+        run.assumptions.append("64-bit integers are represented by their rank in an ascending table of boundary values "
+                               "(Eq / Ord observe nothing but equality and order); random tables are used in the random tier")
         run.exhaustive = True
         run.notes["experiments_enumerated"] = len(cases)
         run.notes["instances"] = sorted({cs["inst"] for cs in cases})
